@@ -199,3 +199,39 @@ M('C06', 'default-one-short', (DEFI, "prediction = [prediction for _ in range(n_
 M('C06', 'default-extra-feature', (DEFI, "sampled_values = {feature: self.values[feature] for feature in feature_subset}", "sampled_values = {feature: self.values[feature] for feature in (feature_subset if len(feature_subset) != 2 else self.values)}"))
 M('C06', 'product-off-by-one-row', (MARG, "            sampled_features[feature_name] = features[\n                            rand_idx].copy()[feature_name]", "            sampled_features[feature_name] = features[\n                            rand_idx].copy()[feature_name] + (1 if rand_idx == 3 else 0)"))
 M('C06', 'deepcopy-values', (MARG, "sampled_instance = features[rand_idx].copy()", "import copy as _c\n        sampled_instance = _c.deepcopy(features[rand_idx])"), kind='equivalent')
+
+# ---- C05 ---------------------------------------------------------------------------------------
+ITV = 'ixai/explainer/sage/interval.py'
+M('C05', 'wrong-divisor-many', (BATCH, """                loss_previous = feature_loss
+            n_data = n
+        self.importance_values = {feature: sage_value / n_data
+                                  for feature, sage_value in sage_values.items()}
+        return self.importance_values
+
+    def explain_many_original(""", """                loss_previous = feature_loss
+            n_data = n
+        self.importance_values = {feature: sage_value / max(n_data - 1, 1)
+                                  for feature, sage_value in sage_values.items()}
+        return self.importance_values
+
+    def explain_many_original("""))
+M('C05', 'first-prediction-baseline', (BATCH, """        marginal_prediction = _get_mean_model_output(all_predictions)
+        for n, (x_i, y_i) in tqdm(enumerate(zip(x_data, y_data), start=1), total=n_data,
+                                  disable=not verbose):
+            permutation_chain = [self.feature_names[index] for index in
+                                 np.random.permutation(len(self.feature_names))]
+            loss_previous = self._loss_function(y_i, marginal_prediction)
+            features_not_in_s""", """        marginal_prediction = all_predictions[0]
+        for n, (x_i, y_i) in tqdm(enumerate(zip(x_data, y_data), start=1), total=n_data,
+                                  disable=not verbose):
+            permutation_chain = [self.feature_names[index] for index in
+                                 np.random.permutation(len(self.feature_names))]
+            loss_previous = self._loss_function(y_i, marginal_prediction)
+            features_not_in_s"""))
+M('C05', 'modulo-off-by-one', (ITV, "self.seen_samples % self.interval_length != 0", "(self.seen_samples + 1) % self.interval_length != 0"))
+M('C05', 'window-one-too-long', (ITV, "storage = IntervalStorage(store_targets=True, size=storage_length)", "storage = IntervalStorage(store_targets=True, size=storage_length + 1)"))
+M('C05', 'model-evaluated-on-skip', (ITV, "            return self.importance_values\n        x_data", "            self._model_function(x_i)\n            return self.importance_values\n        x_data"))
+M('C05', 'skip-returns-zeros', (ITV, "            return self.importance_values\n        x_data", "            return {f: 0. for f in self.importance_values}\n        x_data"))
+M('C05', 'original-credit-shifted', (BATCH, "                x_s[feature] = x_i[feature]\n                predictions = []", "                x_s[feature] = x_i[feature]\n                feature = permutation_chain[0] if n % 3 == 0 else feature\n                predictions = []"))
+M('C05', 'force-changes-rhythm', (ITV, "        self.seen_samples += 1\n        if not force_explain", "        self.seen_samples += 1\n        if force_explain:\n            self.seen_samples = 0\n        if not force_explain"))
+M('C05', 'storage-returns-lists', ('ixai/storage/interval_storage.py', "        return self._storage_x, self._storage_y\n        #return list", "        return list(self._storage_x), list(self._storage_y)\n        #return list"), kind='equivalent')
